@@ -14,7 +14,7 @@
    The theorems quantify over ALL histories: any order, valid and invalid sizes, repeated values, parts of wider values. *)
 From Coq Require Import ZArith List Bool.
 From Verif Require Import ConstPool.ConstPoolModel ConstPool.ConstPoolSpec ConstPool.ConstPoolInv ConstPool.ConstPoolProofs
-  ConstPool.ConstPoolJudge ConstPool.ConstPoolJudgeProofs ConstPool.ConstPoolTreeBridge ConstPool.ConstPoolPartition ConstPool.ConstPoolSharing ConstPool.ConstPoolRBTree.
+  ConstPool.ConstPoolJudge ConstPool.ConstPoolJudgeProofs ConstPool.ConstPoolTreeBridge ConstPool.ConstPoolPartition ConstPool.ConstPoolSharing ConstPool.ConstPoolRBTree ConstPool.ConstPoolFrame.
 From Verif Require Containers.TreeModel Containers.TreeGeneral Containers.TreeRotate.
 Import ListNotations.
 Local Open Scope Z_scope.
@@ -445,3 +445,23 @@ Print Assumptions C19_tree_realised_by_rb_tree_example.
 Theorem C19_judge_iff : forall tr img sz al mn, judge tr img sz al mn = true <-> Judged tr img sz al mn.
 Proof. exact judge_iff. Qed.
 Print Assumptions C19_judge_iff.
+
+(* sequence-level lift of C19_add_frame (round 7): extending a history by ANY further adds (valid or invalid sizes, repeats,
+   parts of wider constants) keeps every node, never shrinks size() or alignment(), keeps every byte-owning region, and leaves
+   every byte owned by an already stored constant unchanged in the image written afterwards *)
+Theorem C19_history_frame : forall cmds more, wf_cmds (cmds ++ more) -> guard (cmds ++ more) ->
+  let p := final cmds in let p' := final (cmds ++ more) in
+  (forall j n, In n (nth j (trees p) []) -> In n (nth j (trees p') [])) /\
+  psize p <= psize p' /\ palign p <= palign p' /\
+  (forall off s x, In (off, s) (flat_map stored (trees p)) -> off <= x < off + s ->
+     nth (Z.to_nat x) (cp_fill p') 0 = nth (Z.to_nat x) (cp_fill p) 0) /\
+  (forall r, In r (flat_map stored (trees p)) -> In r (flat_map stored (trees p'))).
+Proof. exact history_frame_thm. Qed.
+Print Assumptions C19_history_frame.
+
+Theorem C19_history_frame_example :
+  let cmds := [([1], 1); ([2; 2; 2; 2], 4)] in let more := [([9; 9; 9], 3); ([3], 1); ([1], 1); ([2; 2], 2)] in
+  wf_cmds (cmds ++ more) /\ guard (cmds ++ more) /\ In (4, 4) (flat_map stored (trees (final cmds))) /\
+  cp_fill (final cmds) = [1; 0; 0; 0; 2; 2; 2; 2] /\ cp_fill (final (cmds ++ more)) = [1; 3; 2; 2; 2; 2; 2; 2].
+Proof. exact history_frame_example. Qed.
+Print Assumptions C19_history_frame_example.
